@@ -70,6 +70,8 @@ func engineFor(prop string) Engine {
 		return e1Engine{}
 	case "C05", "C20", "C14", "C18":
 		return e3Engine{}
+	case "C15", "C12":
+		return e2Engine{}
 	}
 	return nil
 }
